@@ -4,8 +4,13 @@ tie:    (a) translator: `Gen/AlgDone.lean` is regenerated from sigpy/alg.py + ap
         increments of Alg.update and of every `_update`, every `_done` expression, the App.run loop);
         (b) counter/done traces of every Alg subclass under random interleavings of done()/update()
         (up to max_iter+2 updates) and of App.run, against the Lean counter machine / runLoop fed
-        with the observed residuals; (c) PDHG and GradientMethod `_update` (incl. the residual they
-        feed to `_done`) one update at a time against the Lean transcription in exact rationals.
+        with the observed residuals; (c) one update at a time against the Lean step models in exact
+        rationals: PDHG in EVERY variant (constant theta, gamma_primal > 0, gamma_dual > 0; scalar or
+        array-valued tau/sigma) against `C15.pdhgUpdateG` = C13's translator-generated `pdStep` plus the
+        residual formulas regenerated from the source (`Gen/C15Resid.lean`), plain PDHG also against the
+        older transcription `pdhgUpdate`; GradientMethod; NewtonsMethod with and without the backtracking
+        line search (separable quartic objective, so that the loop really backtracks) against
+        `C15.newtonUpdateLS` (x, lamda2, the generated residual formula).
 search: the statement itself on the real classes: canonical loop and App.run perform <= max_iter
         updates, counter +1 per update, run() returns what the alg holds; with tol = 0, when done()
         first turns true before max_iter one more update() on a deep copy must leave the solution
@@ -25,15 +30,21 @@ from harness.translate import gen as G
 from harness.translate import gen_c15
 
 PROPERTY = "C15"
-LEAN_MODULES = ["SigpyVerif.Props.C15", "SigpyVerif.Props.C12"]
+LEAN_MODULES = ["SigpyVerif.Props.C15", "SigpyVerif.Props.C12", "SigpyVerif.Props.C13"]
 CLASSES = gen_c15.CLASSES
 THEOREMS = ["SigpyVerif.C15." + t for t in [
     "loop_bound", "ctr_iterate", "iter_counts_updates", "app_one_update_per_pass", "self_incr_zero",
     "early_stop_fixed_gm", "early_stop_fixed_gm_accel", "early_stop_fixed_pdhg", "early_stop_fixed_newton",
     "pdhg_primal_only_not_fixed", "gm_accel_x_only_not_fixed",
+    "pdRescale_steps_pos", "early_stop_fixed_pdhg_general", "newtonResid_nonpos", "newtonLoop_zero_dir",
+    "early_stop_fixed_newton_ls", "newton_ls_backtracks",
     "power_monotone", "power_normalised", "power_le_bound",
 ] + ["loop_bound_" + c for c in CLASSES]] + ["SigpyVerif.C12.cg_early_stop_fixed", "SigpyVerif.C12.cg_breakdown",
-                                              "SigpyVerif.C12.iter_counts_updates"]
+                                              "SigpyVerif.C12.iter_counts_updates",
+                                              "SigpyVerif.C13.pdhg_fixed_point_iff_saddle_diag",
+                                              "SigpyVerif.C13.isProxW_unique", "SigpyVerif.C13.StepOp.Pos.smul",
+                                              "SigpyVerif.C13.StepOp.Pos.div", "SigpyVerif.C13.StepOp.scalar_pos",
+                                              "SigpyVerif.C13.StepOp.diag_pos"]
 
 KEY_PDHG = "C15:PDHG:primal-only-resid"
 KEY_GM = "C15:GradientMethod:accelerated-stall"
@@ -64,7 +75,7 @@ class time_limit:
 
 
 def translate(ctx):
-    G.regenerate(ctx, ["AlgDone", "C12"])
+    G.regenerate(ctx, ["AlgDone", "C12", "C13", "C15Resid"])
 
 
 # ---- small problem instances of every Alg subclass ---------------------------------------------
@@ -83,6 +94,9 @@ def make(rng, cls, max_iter, spec=None):
     from sigpy import alg as SA
     import sigpy as sp
     s = dict(spec) if spec else dict(cls=cls, max_iter=max_iter, seed=rng.randint(0, 2 ** 31))
+    # a complete spec (replay / disagreement) carries every drawn key; one written before a key existed gets that key's
+    # neutral value, so old replays rebuild the same instance
+    fresh = spec is None or "n" not in spec
     r = np.random.RandomState(s["seed"])
     pr = __import__("random").Random(s["seed"])
     n = s.setdefault("n", pr.randint(1, 4))
@@ -166,8 +180,20 @@ def make(rng, cls, max_iter, spec=None):
         proxg = {"l1": lambda t, v: soft(lam * t, v), "l1-small-sigma": lambda t, v: soft(lam * t, v),
                  "box": lambda t, v: np.clip(v, -0.5, 0.5), "none": lambda t, v: v}[fam]
         x, u = np.zeros(n), np.zeros(m)
+        # step-size adaptation (gamma_primal > 0 | gamma_dual > 0) and array-valued steps (entries <= the scalar step,
+        # so the step condition still holds); absent in specs written before these existed = plain scalar steps
+        acc = s.setdefault("acc", pr.choice(["none", "none", "primal", "dual"]) if fresh else "none")
+        arr = s.setdefault("arr", (pr.random() < 0.4) if fresh else False)
+        gp = s.setdefault("gp", pr.choice([0.5, 1.0, 2.0]) if acc == "primal" else 0)
+        gd = s.setdefault("gd", pr.choice([0.5, 1.0]) if acc == "dual" else 0)
+        if arr:
+            tf = s.setdefault("tau_f", [pr.choice([1.0, 0.5, 0.25]) for _ in range(n)])
+            sf = s.setdefault("sigma_f", [pr.choice([1.0, 0.5]) for _ in range(m)])
+            tau_, sigma_ = tau * np.array(tf), sigma * np.array(sf)
+        else:
+            tau_, sigma_ = tau, sigma
         a = SA.PrimalDualHybridGradient(lambda sg, w: (w - sg * y) / (1 + sg), proxg, lambda v: A @ v, lambda w: A.T @ w,
-                                        x, u, tau, sigma, max_iter=max_iter, tol=0)
+                                        x, u, tau_, sigma_, gamma_primal=gp, gamma_dual=gd, max_iter=max_iter, tol=0)
         return dict(alg=a, sol=lambda: [a.x, a.u], spec=s, A=A, y=y, lam=lam)
     if cls == "AltMin":
         st = dict(a=np.array([1.0]), b=np.array([2.0]))
@@ -208,7 +234,26 @@ def make(rng, cls, max_iter, spec=None):
         else:
             x = np.array([float(pr.randint(-2, 2)) for _ in range(n)])
         Qi = np.linalg.inv(Q)
-        a = SA.NewtonsMethod(lambda v: Q @ v - c, lambda v: (lambda w: Qi @ w), x, max_iter=max_iter, tol=0)
+        nfam = s.setdefault("nfam", pr.choice(["quad", "quartic", "quartic"]) if fresh else "quad")
+        beta = s.setdefault("beta", pr.choice([1, 0.5, 0.8, 0.5]) if fresh else 1)
+        if nfam == "quartic":
+            # separable convex quartic  f(x) = sum a_i x_i^4/4 + q_i x_i^2/2 - c_i x_i  (integers: exact in floats);
+            # the full Newton step overshoots from far away, so the line search (beta < 1) really backtracks
+            qa_ = np.array(s.setdefault("qa", [float(pr.choice([0, 1, 2, 3])) for _ in range(n)]))
+            qq_ = np.array(s.setdefault("qq", [float(pr.choice([1, 2])) for _ in range(n)]))
+            if s["at_solution"]:
+                xs_ = np.array(s.setdefault("qxs", [float(pr.randint(-2, 2)) for _ in range(n)]))
+                qc_ = qa_ * xs_ ** 3 + qq_ * xs_
+                x = xs_.copy()
+            else:
+                qc_ = np.array(s.setdefault("qc", [float(pr.randint(-30, 30)) for _ in range(n)]))
+                x = np.array(s.setdefault("qx0", [float(pr.randint(-3, 3)) for _ in range(n)]))
+            f_ = lambda v: float(np.sum(qa_ * v ** 4 / 4 + qq_ * v ** 2 / 2 - qc_ * v))  # noqa: E731
+            a = SA.NewtonsMethod(lambda v: qa_ * v ** 3 + qq_ * v - qc_, lambda v: (lambda w: w / (3 * qa_ * v ** 2 + qq_)), x,
+                                 beta=beta, f=f_, max_iter=max_iter, tol=0)
+            return dict(alg=a, sol=lambda: [a.x], spec=s, qa=qa_, qq=qq_, qc=qc_)
+        f_ = lambda v: float(0.5 * v @ (Q @ v) - c @ v)  # noqa: E731
+        a = SA.NewtonsMethod(lambda v: Q @ v - c, lambda v: (lambda w: Qi @ w), x, beta=beta, f=f_, max_iter=max_iter, tol=0)
         return dict(alg=a, sol=lambda: [a.x], spec=s)
     if cls == "GerchbergSaxton":
         m = n + 2
@@ -364,11 +409,24 @@ def _vec(s):
     return np.array([float(Fraction(t)) for t in s.split(",")]) if s != "-" else np.zeros(0)
 
 
+def _steptok(v):
+    return ("a:" + frl(v)) if isinstance(v, np.ndarray) else ("s:" + fr(v))
+
+
+def _stepvec(tok):
+    kind, body = tok.split(":")
+    return np.array([float(Fraction(t)) for t in body.split(",")]), kind
+
+
+STEP_CLASSES = ["PrimalDualHybridGradient", "GradientMethod", "NewtonsMethod"]
+STEP_MODEL = {"pdhg": "pdhgUpdate", "pdhgG": "pdhgUpdateG", "gm": "gmUpdate", "newton": "newtonUpdateLS"}
+
+
 def step_stream(ctx, n_inst):
     rng = ctx.rng
     lines, meta = [], []
     for _ in range(n_inst):
-        cls = rng.choice(["PrimalDualHybridGradient", "GradientMethod"])
+        cls = rng.choice(["PrimalDualHybridGradient", "PrimalDualHybridGradient", "GradientMethod", "NewtonsMethod"])
         spec = None
         if cls == "PrimalDualHybridGradient":   # the step model knows the quadratic-data-fit families only
             spec = dict(cls=cls, max_iter=6, seed=rng.randint(0, 2 ** 31),
@@ -379,12 +437,23 @@ def step_stream(ctx, n_inst):
             if cls == "PrimalDualHybridGradient":
                 prox = {"l1": "soft:%s" % fr(inst["lam"]), "l1-small-sigma": "soft:%s" % fr(inst["lam"]),
                         "box": "box:-1/2:1/2", "none": "none"}[s["fam"]]
-                ln = "C15 pdhg m=%d n=%d A=%s y=%s tau=%s sigma=%s theta=1 x=%s u=%s xext=%s prox=%s" % (
+                plain = s["acc"] == "none" and not s["arr"]
+                ln_old = "C15 pdhg m=%d n=%d A=%s y=%s tau=%s sigma=%s theta=1 x=%s u=%s xext=%s prox=%s" % (
                     s["m"], s["n"], frl(inst["A"]), frl(inst["y"]), fr(a.tau), fr(a.sigma), frl(a.x), frl(a.u),
-                    frl(a.x_ext), prox)
+                    frl(a.x_ext), prox) if plain else None
+                ln = "C15 pdhgG m=%d n=%d A=%s y=%s tau=%s sigma=%s gp=%s gd=%s theta=%s taumin=%s sigmamin=%s x=%s u=%s xext=%s prox=%s" % (
+                    s["m"], s["n"], frl(inst["A"]), frl(inst["y"]), _steptok(a.tau), _steptok(a.sigma), fr(a.gamma_primal),
+                    fr(a.gamma_dual), fr(a.theta), fr(getattr(a, "tau_min", 0)), fr(getattr(a, "sigma_min", 0)),
+                    frl(a.x), frl(a.u), frl(a.x_ext), prox)
                 a.update()
                 obs = dict(x=a.x.copy(), u=a.u.copy(), xext=a.x_ext.copy(), resid2=float(a.resid) ** 2)
-            else:
+                if ln_old is not None:
+                    lines.append(ln_old)
+                    meta.append((cls, s, _k, dict(obs), "pdhg"))
+                obs = dict(obs, tau=np.atleast_1d(np.array(a.tau, dtype=float)).copy(),
+                           sigma=np.atleast_1d(np.array(a.sigma, dtype=float)).copy())
+                op = "pdhgG"
+            elif cls == "GradientMethod":
                 prox = {"plain": "none", "box": "box:%s:%s" % (fr(inst["lo"]), fr(inst["hi"])),
                         "box-momentum": "box:%s:%s" % (fr(inst["lo"]), fr(inst["hi"])), "l1": "soft:%s" % fr(inst["lam"])}[s["fam"]]
                 told = a.t if a.accelerate else 1
@@ -395,26 +464,54 @@ def step_stream(ctx, n_inst):
                     s["n"], frl(inst["Q"]), frl(inst["c"]), fr(a.alpha), int(a.accelerate), prox, frl(x0), frl(z0),
                     fr(told), fr(tnew))
                 obs = dict(x=a.x.copy(), z=(a.z.copy() if a.accelerate else None), resid2=float(a.resid) ** 2)
+                op = "gm"
+            else:
+                if s["nfam"] != "quartic":
+                    break   # the Newton step model is exercised on the separable quartic (exact rational f, gradf, H^-1)
+                ln = "C15 newton a=%s q=%s c=%s x=%s beta=%s fuel=200" % (frl(inst["qa"]), frl(inst["qq"]), frl(inst["qc"]),
+                                                                          frl(a.x), fr(a.beta))
+                try:
+                    with time_limit(10):
+                        a.update()
+                except Exception as e:  # noqa
+                    ctx.disagree("step", dict(spec=s, update=_k + 1), "raised %r" % (e,), "an update")
+                    break
+                obs = dict(x=a.x.copy(), resid=float(a.residual), lamda2=float(a.lamda2))
+                op = "newton"
             lines.append(ln)
-            meta.append((cls, s, _k, obs))
-    bad, only_resid = {"PrimalDualHybridGradient": 0, "GradientMethod": 0}, {"PrimalDualHybridGradient": True, "GradientMethod": True}
-    for ln, (cls, s, k, obs), rep in zip(lines, meta, ctx.driver(lines)):
+            meta.append((cls, s, _k, obs, op))
+    bad, only_resid = {c: 0 for c in STEP_CLASSES}, {c: True for c in STEP_CLASSES}
+    for ln, (cls, s, k, obs, op), rep in zip(lines, meta, ctx.driver(lines)):
         ctx.case(ln, sample=dict(line=ln[:160], reply=rep[:100]) if ctx.evaluations % 41 == 0 else None)
-        ctx.count("step:%s:%s" % (cls, s.get("fam")))
+        ctx.count("step:%s:%s:%s" % (cls, op, s.get("fam") or s.get("nfam")) + (
+            ":%s:%s" % (s["acc"], "array" if s["arr"] else "scalar") if op == "pdhgG" else "")
+            + (":beta=%s" % s["beta"] if op == "newton" else ""))
         if not rep.startswith("ok "):
             bad[cls] += 1
             only_resid[cls] = False
             ctx.disagree("step", dict(spec=s, update=k + 1), "state", rep)
             continue
         m = _kv(rep)
+        if op == "newton" and float(Fraction(m["margin"])) < 1e-6 * (1 + abs(float(Fraction(m["lamda2"])))):
+            ctx.count("step:NewtonsMethod:near-tie-skipped")   # the float and the exact line-search test may differ
+            continue
+        if op == "newton":
+            ctx.count("step:NewtonsMethod:backtracks=%s" % ("0" if m["alpha"] == "1" else ">0"))
         diffs = []
         for f, v in obs.items():
             if v is None:
                 continue
-            if f == "resid2":
-                w = float(Fraction(m["resid2"]))
+            if f in ("resid2", "resid", "lamda2"):
+                w = float(Fraction(m[f]))
                 if abs(v - w) > 1e-9 * (1 + abs(w)):
-                    diffs.append("resid2 real=%r model=%r" % (v, w))
+                    diffs.append("%s real=%r model=%r" % (f, v, w))
+                    if f == "lamda2":
+                        only_resid[cls] = False
+            elif f in ("tau", "sigma"):
+                w, kind = _stepvec(m[f])
+                if w.shape != v.shape or not np.all(np.abs(v - w) <= 1e-9 * (1 + np.abs(w))):
+                    diffs.append("%s real=%s model=%s" % (f, v.tolist(), w.tolist()))
+                    only_resid[cls] = False
             else:
                 w = _vec(m[f])
                 if w.shape != np.ravel(v).shape or not np.all(np.abs(np.ravel(v) - w) <= 1e-9 * (1 + np.max(np.abs(w), initial=0))):
@@ -422,15 +519,17 @@ def step_stream(ctx, n_inst):
                     only_resid[cls] = False
         if diffs:
             bad[cls] += 1
-            ctx.disagree("step", dict(spec=s, update=k + 1), diffs, "Lean C15.%s" % ("pdhgUpdate" if cls.startswith("Primal") else "gmUpdate"))
+            ctx.disagree("step", dict(spec=s, update=k + 1), diffs, "Lean C15.%s" % STEP_MODEL[op])
     return bad, only_resid
 
 
 def correspond(ctx):
     ctx.rule = ("trace: (class, small random problem, max_iter in {0,1,2,5}, random interleaving of done()/update() with "
                 "max_iter+2 updates) -> counter after each update and verdict of each done() vs the Lean counter machine "
-                "with the generated _done; apprun: App.run vs Lean runLoop; step: one update of PDHG / GradientMethod "
-                "(x,u,x_ext / x,z and resid^2) vs the Lean transcription in exact rationals at 1e-9; distinct by "
+                "with the generated _done; apprun: App.run vs Lean runLoop; step: one update of PDHG (constant theta / "
+                "gamma_primal / gamma_dual, scalar / array steps: x,u,x_ext,tau,sigma,resid^2), GradientMethod (x,z,resid^2), "
+                "NewtonsMethod with line search on a separable quartic (x, lamda2, residual; cases whose line-search test is "
+                "within 1e-6 of a tie are skipped) vs the Lean transcription in exact rationals at 1e-9; distinct by "
                 "protocol line; every case performs at least one call")
     q = ctx.tier == "quick"
     a = gen_c15.analyse()
@@ -445,12 +544,16 @@ def correspond(ctx):
     ctx.oblige("correspondence:C15.apprun", "correspondence", bad == 0,
                "%d App.run loops differ from Lean runLoop%s" % (bad, (" explained-by:" + KEY_GS) if gs != 0 else ""))
     bad, only_resid = step_stream(ctx, 60 if q else 400)
-    for cls, key in (("PrimalDualHybridGradient", KEY_PDHG), ("GradientMethod", KEY_GM)):
+    for cls, key in (("PrimalDualHybridGradient", KEY_PDHG), ("GradientMethod", KEY_GM), ("NewtonsMethod", "C15:NewtonsMethod:early-stop")):
         ctx.oblige("correspondence:C15.step.%s" % cls, "correspondence", bad[cls] == 0,
                    "%d updates differ from the Lean transcription%s" % (
                        bad[cls], (" (only in the residual fed to _done) explained-by:" + key) if bad[cls] and only_resid[cls] else ""))
     ctx.assumptions += [
-        "PDHG is modelled for scalar tau/sigma and gamma_primal = gamma_dual = 0 (constant theta); NewtonsMethod for beta = 1",
+        "PDHG: every branch of the step-size block and scalar or array steps (pdhgUpdateG = C13's generated pdStep + the "
+        "generated residual formulas); NewtonsMethod: beta = 1 and the backtracking line search (newtonUpdateLS, loop with "
+        "fuel; the statement order of NewtonsMethod._update is transcribed, only its residual formula is generated)",
+        "array steps enter early_stop_fixed_pdhg_general as positive operators (C13.StepOp) and the prox maps through "
+        "their characterisation in the step-weighted inner product (C13.IsProxW)",
         "SDMM: only its counter/_done logic is covered (generated definitions + loop_bound_SDMM), no run-time traces",
         "power_le_bound takes an operator bound L; that the least bound of a Hermitian PSD operator is its largest "
         "eigenvalue (spectral theorem) is not re-proved, the search oracle checks max_eig <= lambda_max numerically",
@@ -529,6 +632,9 @@ def check_instance(ctx, cls, max_iter, spec, origin, use_app=False):
         # early stop: tol = 0, done() before max_iter
         if ok and a.iter < max_iter and a.done():
             flag = bool(getattr(a, "not_positive_definite", False))
+            ctx.count("oracle:early-stop:%s%s" % (cls, (":%s:%s" % (spec.get("acc", "none"), "array" if spec.get("arr") else "scalar"))
+                                                 if cls == "PrimalDualHybridGradient" else
+                                                 (":%s:beta=%s" % (spec.get("nfam"), spec.get("beta")) if cls == "NewtonsMethod" else "")))
             before = [np.array(v, copy=True) for v in inst["sol"]()]
             if cls in ("AltMin",):
                 b = a
@@ -540,7 +646,10 @@ def check_instance(ctx, cls, max_iter, spec, origin, use_app=False):
                     after = [np.array(v, copy=True) for v in (inst["sol"]() if b is a else _sol_of(b, cls))]
                     # exact comparison for the incremental methods; GerchbergSaxton's update RE-SOLVES a least-squares
                     # problem (inner CG), which reproduces a fixed point only up to rounding (observed 1 ulp): 1e-10
-                    if cls == "GerchbergSaxton":
+                    # PDHG with gamma_primal/gamma_dual > 0: the extra update re-evaluates the fixed-point equations with
+                    # RESCALED steps; a floating-point fixed point of the previous steps is reproduced only up to rounding
+                    # (observed: 1 ulp, e.g. -0.4999999999999999 for -0.5).  Exact arithmetic: early_stop_fixed_pdhg_general.
+                    if cls == "GerchbergSaxton" or (cls == "PrimalDualHybridGradient" and spec.get("acc", "none") != "none"):
                         same = all(x.shape == y.shape and np.all(np.abs(x - y) <= 1e-10 * (1 + np.abs(x))) for x, y in zip(before, after))
                     else:
                         same = all(x.shape == y.shape and np.array_equal(x, y) for x, y in zip(before, after))
@@ -621,6 +730,19 @@ def search(ctx, budget):
         ctx.case(("oracle", cls, mi, i))
         ctx.count("oracle:%s" % cls)
         check_instance(ctx, cls, mi, None, "search", use_app=(i % 5 == 4))
+    # PDHG stalling family under step-size adaptation / array steps; Newton with line search at and away from a solution
+    for i in range(int(30 * budget)):
+        spec = dict(cls="PrimalDualHybridGradient", max_iter=rng.choice([5, 30]), seed=rng.randint(0, 2 ** 31),
+                    fam=rng.choice(["l1-small-sigma", "l1-small-sigma", "box", "none"]), acc=rng.choice(["primal", "dual"]))
+        ctx.case(("oracle-pdhg-accel", json.dumps(spec, sort_keys=True)))
+        ctx.count("oracle:PrimalDualHybridGradient:%s" % spec["acc"])
+        check_instance(ctx, spec["cls"], spec["max_iter"], spec, "search", use_app=(i % 5 == 4))
+    for i in range(int(20 * budget)):
+        spec = dict(cls="NewtonsMethod", max_iter=rng.choice([5, 30]), seed=rng.randint(0, 2 ** 31),
+                    beta=rng.choice([0.5, 0.8]), nfam=rng.choice(["quartic", "quad"]))
+        ctx.case(("oracle-newton-ls", json.dumps(spec, sort_keys=True)))
+        ctx.count("oracle:NewtonsMethod:line-search")
+        check_instance(ctx, spec["cls"], spec["max_iter"], spec, "search")
     for i in range(int(40 * budget)):
         spec = dict(seed=rng.randint(0, 2 ** 31), m=rng.randint(1, 4), n=rng.randint(1, 4), lam=rng.choice([1.0, 2.0, 4.0]),
                     sigma=rng.choice([0.0625, 0.125, 0.25, 1.0]), max_iter=rng.choice([5, 30]))
